@@ -429,12 +429,15 @@ def vertex_enum(cs):
                 verts[x] = True
             else:
                 x = (N[0] / D, N[1] / D, N[2] / D)
-                key = (round(x[0], 6), round(x[1], 6), round(x[2], 6))
-                verts.setdefault(key, x)
+                for q in verts:
+                    if abs(q[0] - x[0]) <= 1e-7 and abs(q[1] - x[1]) <= 1e-7 and abs(q[2] - x[2]) <= 1e-7:
+                        break
+                else:
+                    verts[x] = True
     ST.decisions += ndec
     if best < ST.margin:
         ST.margin = best
-    return list(verts) if exact else list(verts.values())
+    return list(verts)
 
 
 def hull_desc(verts):
